@@ -1,0 +1,18 @@
+// SPDX-FileCopyrightText: 2026 The Pion community <https://pion.ly>
+// SPDX-License-Identifier: MIT
+
+//go:build verif
+
+package nack
+
+import "github.com/pion/interceptor/internal/rtpbuffer"
+
+// VerifResponderPacketFactoryCopy makes the responder use the given copying packet factory
+// (the default one, but with an RTX sequencer chosen by the verification harness).
+func VerifResponderPacketFactoryCopy(f *rtpbuffer.PacketFactoryCopy) ResponderOption {
+	return func(r *ResponderInterceptor) error {
+		r.packetFactory = f
+
+		return nil
+	}
+}
